@@ -153,7 +153,7 @@ func c22Exec(ops []string) []string {
 				outs = append(outs, "bad-op")
 				continue
 			}
-			hasFile := f[2] == "1"
+			hasFile := f[2] == "1" || f[2] == "2" // 2: KeyringFile configured, the file does not exist yet (keyring handed over in memory)
 			if len(keys) > 0 {
 				// the file a previous run of the agent would have left, loaded by the real loader
 				enc := make([]string, len(keys))
@@ -171,7 +171,7 @@ func c22Exec(ops []string) []string {
 					continue
 				}
 				x.kr = kr
-				if !hasFile {
+				if f[2] != "1" {
 					os.Remove(x.path)
 				}
 			}
@@ -291,6 +291,13 @@ func c22Gen(rng *rand.Rand, tier string) []Case {
 	out = append(out, Case{ID: "fixed-nofile", Tags: []string{"fixed", "no-file"}, Ops: []string{
 		"init " + k(0) + " 0", "install " + k(1), "use " + k(1), "remove " + k(0), "remove " + k(1),
 	}})
+	// the keyring is handed over in memory and the configured file does not exist yet: the first request answered
+	// `ok` — a no-op one included (a key already installed, an absent key removed, the primary used again) — must leave a
+	// file that loads
+	for j, first := range []string{"install " + k(1), "install " + k(0), "remove " + k(3), "use " + k(0), "install " + k(2), "use " + k(1)} {
+		out = append(out, Case{ID: fmt.Sprintf("fixed-file-not-yet-written-%d", j), Nontrivial: true, Tags: []string{"fixed", "file-not-yet-written"}, Ops: []string{
+			"init " + k(0) + "," + k(1) + " 2", "install " + hexb(invalid[1]), first, "restart", "remove " + k(1), "restart"}})
+	}
 	out = append(out, Case{ID: "fixed-noencryption", Tags: []string{"fixed", "no-encryption"}, Ops: []string{
 		"init _ 0", "install " + k(1), "use " + k(1), "remove " + k(0), "raw remove -",
 	}})
@@ -455,7 +462,7 @@ func c22Gen(rng *rand.Rand, tier string) []Case {
 func init() {
 	register(&Prop{
 		ID:   "C22",
-		Rule: "real serf node with keyring + keyring file; requests through KeyManager (internal queries handled by the node's own key handlers), malformed payloads through NotifyMsg; random sequences of install/use/remove over valid keys (16/24/32 bytes), wrong lengths (0,1,15,17,23,31,33,64), absent keys, the primary, duplicates, restarts through the agent's loader in the middle of a history, initial files with repeated or invalid entries, histories of 100+ installs and initial files of 110 keys (keyring file well over 4 KiB) followed by restarts; non-trivial = keyring file configured, at least 2 rejected and 3 accepted requests",
+		Rule: "real serf node with keyring + keyring file; requests through KeyManager (internal queries handled by the node's own key handlers), malformed payloads through NotifyMsg; random sequences of install/use/remove over valid keys (16/24/32 bytes), wrong lengths (0,1,15,17,23,31,33,64), absent keys, the primary, duplicates, restarts through the agent's loader in the middle of a history, a keyring handed over in memory with the configured file not yet written (first request a no-op), initial files with repeated or invalid entries, histories of 100+ installs and initial files of 110 keys (keyring file well over 4 KiB) followed by restarts; non-trivial = keyring file configured, at least 2 rejected and 3 accepted requests",
 		Gen:  c22Gen,
 		Exec: c22Exec,
 	})
